@@ -326,6 +326,7 @@ theorem test_state (fuel : Nat) (c : PV.Src.Expr V) (truth : Bool) (fs fs1 : FS)
   | zero => simp only [PV.Src.evalExpr, Prod.mk.injEq] at he; exact he.1.symm
   | succ fuel =>
     have hE := (expr_state sem env P cf fuel).1
+    have hE1 := (expr_state sem env P cf (fuel + 1)).1
     cases c with
     | bin op a b =>
       simp only [flatTest] at hf
@@ -354,12 +355,66 @@ theorem test_state (fuel : Nat) (c : PV.Src.Expr V) (truth : Bool) (fs fs1 : FS)
               have e1 := hE a fs none fsa ca oa st s1 _ ha hea
               subst e1
               simp only [Prod.mk.injEq] at he; exact he.1.symm
+      · split at hf
+        · split at hf
+          · cases hf
+          · rename_i fsa ca oa ha
+            exact hE1 (.bin op a b) fs none fsa ca oa st st' _ ha he
+        · cases hf
+    | read q args =>
+      simp only [flatTest] at hf
+      split at hf
+      · split at hf
+        · cases hf
+        · rename_i fsa ca oa ha
+          exact hE1 (.read q args) fs none fsa ca oa st st' _ ha he
       · cases hf
+    | un op e =>
+      -- evaluating `op e` evaluates `e` and nothing else
+      have hsub : ∀ (fsa : FS) (ca : List (CStmt V)) (oa : Opnd Reg V), flatE cf fs none e = some (fsa, ca, oa) → st' = st := by
+        intro fsa ca oa ha
+        simp only [PV.Src.evalExpr] at he
+        split at he
+        · rename_i s1 va hea
+          have e1 := hE e fs none fsa ca oa st s1 _ ha hea
+          subst e1
+          simp only [Prod.mk.injEq] at he; exact he.1.symm
+        · rename_i s1 err hea
+          have e1 := hE e fs none fsa ca oa st s1 _ ha hea
+          subst e1
+          simp only [Prod.mk.injEq] at he; exact he.1.symm
+      cases e with
+      | gvar x =>
+        simp only [flatTest] at hf
+        split at hf
+        · split at hf
+          · rename_i rr hr
+            exact hsub fs [] (.reg rr) (by simp [flatE, hr])
+          · cases hf
+        · cases hf
+      | read q args =>
+        simp only [flatTest] at hf
+        split at hf
+        · split at hf
+          · cases hf
+          · rename_i fsa ca oa ha
+            exact hsub fsa ca oa ha
+        · cases hf
+      | bin op2 a b =>
+        simp only [flatTest] at hf
+        split at hf
+        · split at hf
+          · split at hf
+            · cases hf
+            · rename_i fsa ca oa ha
+              exact hsub fsa ca oa ha
+          · cases hf
+        · cases hf
+      | _ => simp [flatTest] at hf
     | gvar x =>
       simp only [PV.Src.evalExpr] at he
       split at he <;> (simp only [Prod.mk.injEq] at he; exact he.1.symm)
     | _ => simp [flatTest] at hf
-
 
 /-! ### out of fuel -/
 
